@@ -156,22 +156,20 @@ def run(chk):
                 is_ctor = bool(f.get("copyctor"))
                 bad = None
                 for cfg in [dict(zip(sorted(selfptr), c_)) for c_ in itertools.product(("own", "ext"), repeat=len(selfptr))]:
+                    from ..own import layout_hook, cache_consistent
                     S_ = Sim(F, cls, {"ptr": cfg, "other_ws": True, "this_ws": not is_ctor, "self": False}, selfptr, owning, is_ctor, other_id=f["params"][0]["id"])
+                    S_.hook = layout_hook(rebuild, dirty, ins, outs)
                     try:
                         S_.run(f)
                     except Unknown as ex:
                         raise Broken("%s: %s" % (f["full"], ex))
-                    for m_ in sorted((set(ins) | set(outs) | {dirty})):
-                        v = S_.state.get(m_)
-                        if m_ in selfptr:
-                            want = ("addr", "this", selfptr[m_]) if cfg[m_] == "own" else ("ext", m_)
-                        else:
-                            want = ("val", "other", m_)
-                        if v != want and m_ in S_.state:
-                            bad = "%s ends as %s instead of %s" % (m_, c15.show(v), c15.show(want))
+                    want_in = {m_: ((("addr", "this", selfptr[m_]) if cfg[m_] == "own" else ("ext", m_)) if m_ in selfptr else ("val", "other", m_)) for m_ in ins}
+                    why = cache_consistent(S_.state, dirty, ins, [o for o in outs if o in S_.state], want_in)
+                    if why:
+                        bad = why
                 chk.saw(f)
                 chk.ob("C09-R3", "%s (%d params): layout inputs written => cache dirty or rebuilt" % (f["full"], len(f["params"])), bad is None, loc(f),
-                       bad or "inputs, cached layout and dirty flag are all copied from the same source", construct="%s::%s/%d/layout-stale" % (cls, f["name"], len(f["params"])))
+                       bad or "inputs come from the source; the cached layout is copied with them, or rebuilt / marked dirty after the last input received its final value", construct="%s::%s/%d/layout-stale" % (cls, f["name"], len(f["params"])))
                 continue
             fl = c12.layout_flow(F, E, cls, dirty, ins, outs)
             fld = F.field(cls, dirty)
